@@ -3112,3 +3112,109 @@ def dissolve_attribute_records(model, module_names: dict) -> list:
             ast.fix_missing_locations(mod.tree)
         done.append(".".join(key))
     return done
+
+
+# --------------------------------------------------------------------------- canonical spellings
+class _CanonNot(ast.NodeTransformer):
+    """`not a is None` -> `a is not None`, `not a == b` -> `a != b`, `not a in b` -> `a not in b`, `not not a` (in a test) -> `a`;
+    `if not c: A else: B` -> `if c: B else: A` (only with a plain else: an elif chain keeps its order).  The pinned tree contains
+    none of these spellings, so the pass is the identity on it."""
+
+    NEG = {ast.Is: ast.IsNot, ast.IsNot: ast.Is, ast.Eq: ast.NotEq, ast.NotEq: ast.Eq, ast.In: ast.NotIn, ast.NotIn: ast.In}
+
+    def __init__(self):
+        self.changed = False
+
+    def visit_UnaryOp(self, n):
+        self.generic_visit(n)
+        if isinstance(n.op, ast.Not) and isinstance(n.operand, ast.Compare) and len(n.operand.ops) == 1 and type(n.operand.ops[0]) in self.NEG:
+            self.changed = True
+            c = n.operand
+            return ast.copy_location(ast.Compare(left=c.left, ops=[self.NEG[type(c.ops[0])]()], comparators=c.comparators), n)
+        return n
+
+    def visit_If(self, n):
+        self.generic_visit(n)
+        t = n.test
+        while isinstance(t, ast.UnaryOp) and isinstance(t.op, ast.Not) and isinstance(t.operand, ast.UnaryOp) and isinstance(t.operand.op, ast.Not):
+            t = t.operand.operand
+            self.changed = True
+        n.test = t
+        plain_else = bool(n.orelse)  # (`else: if x:` and `elif x:` are the same tree; the pinned tree has no negative test with either)
+        if plain_else:
+            # a plain if/else is written with the positive test first (the pinned tree has no `if not c: .. else: ..`,
+            # no `if a != b: .. else: ..`, no `if a is not b: .. else: ..`)
+            pos = None
+            if isinstance(t, ast.UnaryOp) and isinstance(t.op, ast.Not):
+                pos = t.operand
+            elif isinstance(t, ast.Compare) and len(t.ops) == 1 and isinstance(t.ops[0], (ast.NotEq, ast.IsNot, ast.NotIn)):
+                pos = ast.copy_location(ast.Compare(left=t.left, ops=[self.NEG[type(t.ops[0])]()], comparators=t.comparators), t)
+            if pos is not None:
+                self.changed = True
+                return ast.copy_location(ast.If(test=pos, body=n.orelse, orelse=n.body), n)
+        return n
+
+
+def canonical_spellings(model) -> bool:
+    changed = False
+    for mod in model.modules.values():
+        if mod.short.startswith("_typeguard"):
+            continue
+        tr = _CanonNot()
+        tr.visit(mod.tree)
+        if tr.changed:
+            ast.fix_missing_locations(mod.tree)
+            changed = True
+    return changed
+
+
+def collapse_return_temps(model, changed: set) -> bool:
+    """`tmp = <expr>; return tmp` (the temporary bound once and read only by that return) -> `return <expr>`, in functions whose
+    source differs from the pinned tree."""
+    any_change = False
+    for q in sorted(changed):
+        f = model.functions.get(q)
+        if f is None or f.module.short.startswith("_typeguard") or not isinstance(f.node, (ast.FunctionDef, ast.AsyncFunctionDef)):
+            continue
+        loads, stores, pairs = {}, {}, {}
+        for x in ast.walk(f.node):
+            if isinstance(x, ast.Name):
+                (loads if isinstance(x.ctx, ast.Load) else stores).setdefault(x.id, []).append(x)
+        for x in ast.walk(f.node):
+            for fld in ("body", "orelse", "finalbody"):
+                sub = getattr(x, fld, None)
+                if isinstance(sub, list):
+                    for a_, b_ in zip(sub, sub[1:]):
+                        if isinstance(a_, ast.Assign) and len(a_.targets) == 1 and isinstance(a_.targets[0], ast.Name) and isinstance(b_, ast.Return) \
+                                and isinstance(b_.value, ast.Name) and b_.value.id == a_.targets[0].id:
+                            pairs[a_.targets[0].id] = pairs.get(a_.targets[0].id, 0) + 1
+        # a temporary used for nothing but "bind, then return it" (possibly at several returns)
+        temps = {nm for nm, k in pairs.items() if len(loads.get(nm, [])) == k and len(stores.get(nm, [])) == k and nm not in f.params}
+
+        def rec(stmts):
+            ch = False
+            i = 0
+            while i + 1 < len(stmts):
+                a, b = stmts[i], stmts[i + 1]
+                if isinstance(a, ast.Assign) and len(a.targets) == 1 and isinstance(a.targets[0], ast.Name) and isinstance(b, ast.Return) \
+                        and isinstance(b.value, ast.Name) and b.value.id == a.targets[0].id and a.targets[0].id in temps:
+                    b.value = a.value
+                    del stmts[i]
+                    ch = True
+                    continue
+                i += 1
+            for st in stmts:
+                if isinstance(st, (ast.FunctionDef, ast.AsyncFunctionDef, ast.ClassDef)):
+                    continue
+                for fld in ("body", "orelse", "finalbody"):
+                    sub = getattr(st, fld, None)
+                    if isinstance(sub, list) and sub and isinstance(sub[0], ast.stmt):
+                        ch |= rec(sub)
+                for hd in getattr(st, "handlers", []) or []:
+                    ch |= rec(hd.body)
+            return ch
+
+        if rec(f.node.body):
+            ast.fix_missing_locations(f.node)
+            any_change = True
+    return any_change
